@@ -416,7 +416,7 @@ class KindEngine:
         child = node
         p = getattr(node, "_parent", None)
         while p is not None and p is not self.func:
-            if isinstance(p, (ast.If, ast.IfExp, ast.While)):
+            if isinstance(p, (ast.If, ast.IfExp)):
                 if child is not p.test and self._is_dir_test(p.test):
                     return True
             if isinstance(p, ast.BoolOp) and isinstance(p.op, ast.And):
@@ -432,7 +432,7 @@ class KindEngine:
             if isinstance(n, ast.Compare) and len(n.ops) == 1:
                 l, r = n.left, n.comparators[0]
                 kl, kr = self.kind(l), self.kind(r)
-                if (kl in ("D", "S") and is_zero(r)) or (kr in ("D", "S") and is_zero(l)):
+                if isinstance(n.ops[0], ORDER_OPS) and ((kl in ("D", "S") and is_zero(r)) or (kr in ("D", "S") and is_zero(l))):
                     return True
                 if kl == "S" and kr == "S":
                     return True
